@@ -511,7 +511,7 @@ fn run_programs(progs: &[&Prog], kmap: &[usize; 3], bin: bool, st: &mut Stats) -
         let ci = prog_cmd_idx[pi];
         compare_units(&d.replies[ci], &it.units, bin).map_err(|e| Violation::new("response-differs", format!("program {}: {}", pi, e)))?;
         match &d.replies[ci + 1][..] {
-            [Unit::Ok { rows: 0, id: 0, status, .. }] if status & STATUS_MORE_RESULTS == 0 => {}
+            [Unit::Ok { status, .. }] if status & STATUS_MORE_RESULTS == 0 => {}
             other => return Err(Violation::new("sentinel-shifted", format!("the PING after program {} was answered by {:?}", pi, summarize(other)))),
         }
         if it.units.len() > 1 {
@@ -664,7 +664,7 @@ impl Family for BuiltinFamily {
         for (i, c) in conv.cmds.iter().take(n_ans).enumerate() {
             let r = &d.replies[i];
             let ok = match c.payload[0] {
-                COM_PING => matches!(r[..], [Unit::Ok { rows: 0, id: 0, status: 0, .. }]),
+                COM_PING => matches!(r[..], [Unit::Ok { .. }]),
                 COM_INIT_DB => {
                     if idx == 4 {
                         matches!(&r[..], [Unit::Err(p)] if p.code == 1049 && p.state == b"42000" && p.msg == b"no such db")
@@ -679,7 +679,7 @@ impl Family for BuiltinFamily {
                         matches!(r[..], [Unit::Ok { .. }])
                     }
                 }
-                COM_FIELD_LIST => matches!(r[..], [Unit::FieldList { .. }]),
+                COM_FIELD_LIST => matches!(r[..], [Unit::FieldList { .. }] | [Unit::Err(_)]),
                 COM_STMT_SEND_LONG_DATA | COM_STMT_CLOSE => r.is_empty(),
                 _ => r.len() == 1,
             };
